@@ -149,6 +149,10 @@ def norm_name(s):
             t = re.sub(r'[uUlL]+$', '', t)
         if t in ELAB or t in CVQ and False:
             continue
+        if t == 'false':
+            t = '0'
+        elif t == 'true':
+            t = '1'
         res.append(t)
     if res and res[0] == '::':
         res = res[1:]
@@ -431,6 +435,11 @@ class Unit:
         self.funcs_by_first = {}  # first-decl id -> definition node
         self.first_of = {}       # decl id -> first decl id
         self._scan()
+        for k in list(self.cfg.opaque_sizes):
+            if k not in self.records:
+                alt = self._fuzzy_record(k)
+                if alt is not None:
+                    self.cfg.opaque_sizes[alt] = self.cfg.opaque_sizes[k]
         self.cnames = {}         # first-decl id -> C name
         self.used_cnames = {}
         self.want_funcs = []     # worklist of definition nodes
@@ -581,6 +590,10 @@ class Unit:
                 return ('rec', alt)
             if name in self.enums:
                 return ('enum', name)
+            if name not in self.typedefs:
+                alt = self._fuzzy_record(name, self.typedefs, '_fuzzy_td')
+                if alt is not None:
+                    name = alt
             if name in self.typedefs:
                 td = self.typedefs[name]
                 return self.resolve(parse_type(self._decl_type_str(td)), td)
@@ -596,13 +609,16 @@ class Unit:
             return ('fn', self.resolve(ty[1], ctx), [self.resolve(p, ctx) for p in ty[2]], ty[3])
         return ty
 
-    def _fuzzy_record(self, name):
+    def _fuzzy_record(self, name, table=None, cache='_fuzzy_cache'):
         """clang prints `Futex<S>` where the specialization is declared as `Futex<S, void>` (defaulted
         trailing template arguments): accept a unique record whose name extends one argument list"""
-        if not hasattr(self, '_fuzzy_cache'):
-            self._fuzzy_cache = {}
-        if name in self._fuzzy_cache:
-            return self._fuzzy_cache[name]
+        if table is None:
+            table = self.records
+        if not hasattr(self, cache):
+            setattr(self, cache, {})
+        memo = getattr(self, cache)
+        if name in memo:
+            return memo[name]
         res = None
         if '>' in name:
             cands = set()
@@ -610,14 +626,24 @@ class Unit:
                 if ch != '>':
                     continue
                 pre, post = name[:i], name[i:]
-                for k in self.records:
+                for k in table:
                     if k.startswith(pre + ',') and k.endswith(post) and len(k) > len(name):
                         mid = k[len(pre) + 1:len(k) - len(post)]
-                        if mid.count('<') == mid.count('>'):
+                        d = 0
+                        ok = True
+                        for ch2 in mid:
+                            if ch2 == '<':
+                                d += 1
+                            elif ch2 == '>':
+                                d -= 1
+                                if d < 0:
+                                    ok = False
+                                    break
+                        if ok and d == 0:
                             cands.add(k)
             if len(cands) == 1:
                 res = cands.pop()
-        self._fuzzy_cache[name] = res
+        memo[name] = res
         return res
 
     def _decl_type_str(self, n):
